@@ -6,6 +6,7 @@ fn inv_large(ring: &ConstLargeDivisor, mut raw: ReducedLarge) -> Option<ReducedL
     ensures
         // C13: inv(a) is Some(x) with a*x == 1 (mod m) ...
         ret matches Some(x) ==> red_ok(&x, ring) && (resid(&raw, ring) * resid(&x, ring)) % modulus(ring) == 1,
+        ret is Some ==> coprime(resid(&raw, ring), modulus(ring)),
         // ... and None only when gcd(a, m) != 1
         ret is None ==> !coprime(resid(&raw, ring), modulus(ring)),
 @*/
@@ -120,6 +121,7 @@ fn inv_large(ring: &ConstLargeDivisor, mut raw: ReducedLarge) -> Option<ReducedL
         assert((r * (if b_sign == Sign::Negative { -bb } else { bb })) % m == 1);
         assert(resid(&inv, ring) == (if b_sign == Sign::Negative { (-bb) % m } else { bb }));
         lemma_inv_elem(m, r, bb, b_sign == Sign::Negative, resid(&inv, ring));
+        lemma_inv_coprime(r, resid(&inv, ring), m);
     } @*/
     Some(inv)
 }
